@@ -105,6 +105,9 @@ def gen_cases(prop, seed):
             job = rng.choice(jobs)
             job['critical'], job['outcome'] = False, 'ret'
             cands = [job['id']]
+        if rng.random() < 0.12:
+            return [make_case(top, knobs, {"switch": rng.choice(cands),
+                                           "switch_kind": "self_cancel"})]
         if rng.random() < 0.25:
             # the other way of raising: from the cancellation handler
             pool = [n['id'] for n, _, _ in S.walk(top)
